@@ -330,7 +330,9 @@ def run_plans(chk, rd, plans, observers, *, opts=None, module="Trace_Obs", shard
     for e in evs:
         chk.nontrivial(("o", e["id"]))
     if selftest is not None:
-        bad = [b for b in selftest([json.loads(json.dumps(e)) for e in evs[:600]]) if b is not None] if evs else []
+        # a sample spread over all corpora (the first events of a sorted corpus can all be of one uninformative kind)
+        sample = evs[:300] + evs[300::max(1, (len(evs) - 300) // 900)][:900]
+        bad = [b for b in selftest([json.loads(json.dumps(e)) for e in sample]) if b is not None] if evs else []
         if not bad:
             raise tlc.MachineryError("binding self-test did not run (no observation to corrupt)")
         rej, _ = casemod.validate(module, bad, rd, f"{chk.pid}-selftest", shards=2, timeout=900, heap="2g",
